@@ -149,6 +149,14 @@ func minWaitMs(e Event) int {
 	return 0
 }
 
+// exponential: a retryable answer that carries no readable Retry-After (and is not a 408).
+func exponential(e Event) bool {
+	if converting(e.Redirect) || e.Kind == "neterr" || e.Kind == "bad" {
+		return true
+	}
+	return e.Kind == "status" && (e.Status == 429 || e.Status == 503) && (e.RA.Form == "" || e.RA.Form == "garbage")
+}
+
 func stops(e Event) bool {
 	if converting(e.Redirect) {
 		return false
@@ -244,16 +252,17 @@ func genCaller(t *rapid.T) Caller {
 		default:
 			c.EndMs = rapid.IntRange(800001, 4000000).Draw(t, "end")
 		}
-		// Keep the number of attempts of the endlessly repeating final answer bounded: every cycle of
-		// it takes at least its latency plus the wait the statement demands; allow at most 200 cycles.
-		if !stops(last) {
-			l := &c.Script[len(c.Script)-1]
+		// Keep the number of attempts of the endlessly repeating final answer bounded. An answer without
+		// a usable Retry-After is backed off exponentially (about 8 + T/128 s attempts - the attempt cap
+		// of the round tripper guards that expectation); 408 and answers with a Retry-After are retried
+		// as fast as latency + demanded wait allow: at most 80 such cycles fit before the context ends.
+		if l := &c.Script[len(c.Script)-1]; !stops(*l) && !exponential(*l) {
 			cycle := l.LatMs + minWaitMs(*l)
 			if cycle < 400 {
 				l.LatMs += 400 - cycle
 				cycle = 400
 			}
-			if limit := 200 * cycle; c.EndMs > limit {
+			if limit := 80 * cycle; c.EndMs > limit {
 				c.EndMs = limit
 			}
 		}
@@ -279,5 +288,5 @@ func gen(t *rapid.T) Case {
 var Retry = harness.Define(harness.Opts{
 	Name: "retry",
 	Rule: "1-3 callers sharing one client, each with a response script (prefix of answers that must be retried + a final answer repeating for ever; Retry-After absent/seconds/IMF-fixdate/negative/past/garbage; latencies; redirects), API in {PostAndParseWithRetry, AddChain, AddPreChain}, context none/deadline/cancel at a drawn instant; run under virtual time. Non-trivial: some caller made >= 2 attempts or its context ended before a final answer.",
-	Quick: 10000, Thorough: 60000, Crashy: true,
+	Quick: 8000, Thorough: 30000, Crashy: true,
 }, gen, check)
